@@ -263,14 +263,15 @@ class MonochromeDisplayRemapType(Serializable):
                 arr[i] = int(entry)
                 i += 1
             kwargs['RemapLUT'] = arr
-        return super(MonochromeDisplayRemapType, cls).from_node(node, xml_ns, ns_key=ns_key, **kwargs)
+        return super(MonochromeDisplayRemapType, cls).from_node(node, xml_ns, ns_key=ns_key, kwargs=kwargs)
 
     def to_node(self, doc, tag, ns_key=None, parent=None, check_validity=False, strict=DEFAULT_STRICT, exclude=()):
         node = super(MonochromeDisplayRemapType, self).to_node(
-            doc, tag, ns_key=ns_key, parent=parent, check_validity=check_validity, strict=strict)
+            doc, tag, ns_key=ns_key, parent=parent, check_validity=check_validity, strict=strict,
+            exclude=exclude+('RemapLUT', ))
         if 'RemapLUT' in self._child_xml_ns_key:
             rtag = '{}:RemapLUT'.format(self._child_xml_ns_key['RemapLUT'])
-        elif ns_key is not None:
+        elif ns_key is not None and ns_key != 'default':
             rtag = '{}:RemapLUT'.format(ns_key)
         else:
             rtag = 'RemapLUT'
@@ -283,7 +284,7 @@ class MonochromeDisplayRemapType(Serializable):
 
     def to_dict(self, check_validity=False, strict=DEFAULT_STRICT, exclude=()):
         out = super(MonochromeDisplayRemapType, self).to_dict(
-            check_validity=check_validity, strict=strict, exclude=exclude)
+            check_validity=check_validity, strict=strict, exclude=exclude+('RemapLUT', ))
         if self.RemapLUT is not None:
             out['RemapLUT'] = self.RemapLUT.tolist()
         return out
